@@ -5,7 +5,7 @@
    [rec]/[wh] (how nested code and while$ loops are run) are universally quantified in the
    per-built-in laws; [exec n] / [while_loop n] are the instances the interpreter uses. *)
 From Pybtex Require Import Base.Prelude Base.PyChar Base.PyStr Model.BibtexStr Model.Wrap Model.Bst
-  Spec.BstSem Spec.BstTyping Proofs.Bst Proofs.BstSort Proofs.BstSem Proofs.BstLaws Proofs.BstTyping.
+  Spec.BstSem Spec.BstTyping Proofs.Bst Proofs.BstSort Proofs.BstSem Proofs.BstLaws Proofs.BstTyping Proofs.BstOrder.
 From Coq Require Import Permutation Sorted.
 
 (* --- more fuel never changes the outcome of a run that ended (normally or with an error) *)
@@ -223,6 +223,24 @@ Theorem sort_stable_permutation : forall fmt cw fuel st,
     Permutation (st_cites st) (st_cites st').
 Proof. exact Proofs.BstSort.sort_stable_permutation. Qed.
 Print Assumptions sort_stable_permutation.
+
+(* SORT then ITERATE: the function sees the citations in the stable order of their sort keys *)
+Theorem sort_then_iterate : forall fmt cw n st d f cite write,
+  vlookup f (st_vars st) = Some (OFun [IId cite; IId write]) ->
+  vlookup cite (st_vars st) = Some (OBuiltin B_cite) ->
+  vlookup write (st_vars st) = Some (OBuiltin B_write) ->
+  st_db st = Some d ->
+  (forall k, In k (st_cites st) -> alookup str_eqb k (r_entries d) <> None) ->
+  (forall c, In c (st_cites st) -> key_of st c <> None) ->
+  exists ks st',
+    map snd ks = st_cites st /\ Forall (fun p => key_of st (snd p) = Some (fst p)) ks /\
+    run fmt cw (3 + n) st [Cmd nm_sort []; Cmd nm_iterate [[IId f]]] = Ok st' /\
+    st_buf st' = st_buf st ++ map VStr (map snd (stable_sort ks)) /\
+    StronglySorted key_le (stable_sort ks) /\
+    (forall k, filter (has_key k) (stable_sort ks) = filter (has_key k) ks) /\
+    Permutation (st_cites st) (st_cites st').
+Proof. exact Proofs.BstOrder.sort_then_iterate. Qed.
+Print Assumptions sort_then_iterate.
 
 Theorem sort_unset_key_crashes : forall fmt cw fuel st c rest,
   st_cites st = c :: rest -> alookup str_eqb nm_sort_key_ (frame st c) = None ->
